@@ -188,8 +188,8 @@ func VerifH_pick() {
 	if c.keyed && bound {
 		if homeReady {
 			verifReach("bound key, home READY")
-			verifAssert(verifImplies(err == nil, res.SubConn == home.subConn), "C01: call for a bound key placed on another channel while its channel is READY")
-			verifAssert(verifImplies(!c.useStale, err == nil), "C01: the current picker did not place a call for a bound key on its READY channel")
+			verifAssert(verifImplies(err == nil, res.SubConn == home.subConn), "C01,C08: call for a bound key placed on another channel while its own channel is READY (with fallback: every call goes back home once the home channel is READY again)")
+			verifAssert(verifImplies(!c.useStale, err == nil), "C01,C08: the current picker did not place a call for a bound key on its READY channel")
 		} else if !fallback {
 			verifReach("bound key, home not READY, no fallback")
 			verifAssert(err == balancer.ErrNoSubConnAvailable, "C01: call for a bound key whose channel is not READY was not told to wait (fallback disabled)")
